@@ -1,5 +1,549 @@
 package main
 
-import "github.com/smart-core-os/sc-golang/internal/verif/vk"
+// Electric segment part of C18: pkg/trait/electricpb/segmentpb read against the step-function reference of
+// stepfn.go. The mode-level part is in modes.go; both are driven from segments() below.
 
-func segments(r *vk.Run) {}
+import (
+	"fmt"
+	"strings"
+	"time"
+
+	"github.com/smart-core-os/sc-golang/internal/verif/vk"
+	"github.com/smart-core-os/sc-golang/pkg/trait/electricpb/segmentpb"
+)
+
+// caseCtx carries what a violation report of the current case needs.
+type caseCtx struct {
+	r      *vk.Run
+	desc   string
+	replay any
+	unit   int64
+	class  string // appended to mode-level keys for a discrete input class (e.g. a start time equal to Go's zero time)
+}
+
+func (c *caseCtx) bad(fn, clause, format string, a ...any) {
+	key := "C18/" + fn + "/" + clause
+	if c.class != "" && strings.HasPrefix(fn, "modepb.") {
+		key += "/" + c.class
+	}
+	c.r.Violation(key, fmt.Sprintf(format, a...)+" | case: "+c.desc, c.replay)
+}
+
+// call runs one library call with panic capture and counts it as an evaluation.
+func (c *caseCtx) call(fn string, f func()) bool {
+	panicked, what := vk.Recover(f)
+	c.r.Eval(1)
+	c.r.Count("calls:"+fn, 1)
+	if panicked {
+		c.bad(fn, "panic", "%s panicked: %s", fn, what)
+		return false
+	}
+	return true
+}
+
+// unmutated verifies the shadow copies of the list arguments after a call to fn.
+func (c *caseCtx) unmutated(fn string, lists ...*shadowList) {
+	for i, l := range lists {
+		if why := l.changed(false); why != "" {
+			c.bad(fn, "mutates-input", "%s changed its argument list %d %v: %s", fn, i, l.spec, why)
+			// re-arm so that the same change is attributed only once
+			*l = *newShadowList(l.spec)
+		}
+	}
+}
+
+func dur(ns int64) time.Duration { return time.Duration(ns) }
+
+// checkList exercises every single-list operation of segmentpb on one list, at every sample point.
+func checkList(c *caseCtx, l *shadowList) {
+	r := c.r
+	f := l.f
+	pts := samplePoints(c.unit, f.breaks(0))
+
+	// Duration
+	var gotTotal time.Duration
+	var gotInf bool
+	if c.call("segmentpb.Duration", func() { gotTotal, gotInf = segmentpb.Duration(l.list()...) }) {
+		if int64(gotTotal) != f.total || gotInf != f.infinite {
+			c.bad("segmentpb.Duration", "value", "Duration(%v) = (%d, %v), summed lengths are (%d, %v)", l.spec, gotTotal, gotInf, f.total, f.infinite)
+		}
+	}
+	c.unmutated("segmentpb.Duration", l)
+
+	// MaxMagnitude / Max: the largest value the function takes (magnitudes are >= 0, absent = 0)
+	var wantMax float32
+	for _, t := range pts {
+		wantMax = max(wantMax, f.val(t))
+	}
+	var gotMax float32
+	if c.call("segmentpb.MaxMagnitude", func() { gotMax = segmentpb.MaxMagnitude(l.list()...) }) {
+		if gotMax != wantMax {
+			c.bad("segmentpb.MaxMagnitude", "value", "MaxMagnitude(%v) = %v, the largest value of the step function at %d sample points is %v", l.spec, gotMax, len(pts), wantMax)
+		}
+	}
+	c.unmutated("segmentpb.MaxMagnitude", l)
+	var gotIdx int
+	if c.call("segmentpb.Max", func() { gotIdx = segmentpb.Max(l.list()...) }) {
+		checkMaxIndex(c, "segmentpb.Max", f, l.spec, -1<<62, gotIdx)
+	}
+	c.unmutated("segmentpb.Max", l)
+
+	// point queries
+	for _, d := range pts {
+		var el time.Duration
+		var ix int
+		if c.call("segmentpb.ActiveAt", func() { el, ix = segmentpb.ActiveAt(dur(d), l.list()...) }) {
+			checkActiveAt(c, "segmentpb.ActiveAt", fmt.Sprintf("ActiveAt(%d, %v)", d, l.spec), f, d, int64(el), ix)
+		}
+		var lv float32
+		var ok bool
+		if c.call("segmentpb.MagnitudeAt", func() { lv, ok = segmentpb.MagnitudeAt(dur(d), l.list()...) }) {
+			checkMagnitudeAt(c, "segmentpb.MagnitudeAt", fmt.Sprintf("MagnitudeAt(%d, %v)", d, l.spec), f, d, lv, ok)
+		}
+		var ma int
+		if c.call("segmentpb.MaxAfter", func() { ma = segmentpb.MaxAfter(dur(d), l.list()...) }) {
+			checkMaxIndex(c, "segmentpb.MaxAfter", f, l.spec, d, ma)
+		}
+		c.unmutated("segmentpb.ActiveAt|MagnitudeAt|MaxAfter", l)
+		if p := f.cover(d); p != nil {
+			if d == p.start {
+				r.Count("query-at-breakpoint", 1)
+			} else {
+				r.Count("query-inside-segment", 1)
+			}
+		} else if d >= 0 {
+			r.Count("query-beyond-end", 1)
+		} else {
+			r.Count("query-negative", 1)
+		}
+	}
+
+	// Shift by every sample point, both directions
+	for _, p := range pts {
+		checkShift(c, l, p)
+		if p != 0 {
+			checkShift(c, l, -p)
+		}
+	}
+
+	// Cut of every segment around its own bounds
+	for i := range l.spec {
+		sp := l.spec[i]
+		single, _ := readFn(l.list()[i : i+1])
+		for _, d := range samplePoints(c.unit, single.breaks(0)) {
+			checkCut(c, l, i, sp, single, d)
+		}
+	}
+}
+
+func checkActiveAt(c *caseCtx, fn, what string, f stepFn, d, el int64, ix int) {
+	if d < 0 {
+		// documented: "If d<0, (d,0) is returned" / "index will be 0 and elapsed will be negative, indicating how far before"
+		if el != d || ix != 0 {
+			c.bad(fn, "negative", "%s = (%d, %d), documented result before the start is (%d, 0)", what, el, ix, d)
+		}
+		return
+	}
+	wantEl, wantIx := f.total, f.n
+	if p := f.cover(d); p != nil {
+		wantEl, wantIx = p.start, p.idx
+	}
+	if ix != wantIx {
+		c.bad(fn, "index", "%s = (%d, %d), the segment covering that instant is %d (len(segments) = none)", what, el, ix, wantIx)
+	}
+	if el != wantEl {
+		c.bad(fn, "elapsed", "%s = (%d, %d), time elapsed before that segment is %d", what, el, ix, wantEl)
+	}
+}
+
+func checkMagnitudeAt(c *caseCtx, fn, what string, f stepFn, d int64, lv float32, ok bool) {
+	wantV, wantOK := f.at(d)
+	if ok != wantOK {
+		c.bad(fn, "ok", "%s = (%v, %v), a segment covers that instant: %v", what, lv, ok, wantOK)
+	}
+	if lv != wantV {
+		c.bad(fn, "value", "%s = (%v, %v), the step function there is %v", what, lv, ok, wantV)
+	}
+}
+
+// checkMaxIndex judges Max (from = very negative) and MaxAfter(from): the result must be a non-zero-length
+// segment that ends after from and has the largest magnitude of all such segments (any of them on a tie), or
+// len(segments) if there is none.
+func checkMaxIndex(c *caseCtx, fn string, f stepFn, spec fmt.Stringer, from int64, got int) {
+	var best float32
+	cands := 0
+	for _, p := range f.pieces {
+		if p.positive() && (p.inf || p.end > from) {
+			if cands == 0 || p.mag > best {
+				best = p.mag
+			}
+			cands++
+		}
+	}
+	what := fmt.Sprintf("%s(%v)", fn, spec)
+	if from > -1<<62 {
+		what = fmt.Sprintf("%s(%d, %v)", fn, from, spec)
+	}
+	if cands == 0 {
+		if got != f.n {
+			c.bad(fn, "none", "%s = %d, there is no non-zero-length segment in range so len(segments)=%d is documented", what, got, f.n)
+		}
+		return
+	}
+	for _, p := range f.pieces {
+		if p.idx == got {
+			if !p.positive() || !(p.inf || p.end > from) {
+				c.bad(fn, "index", "%s = %d, which is a zero-length segment or one that ended before the instant", what, got)
+			} else if p.mag != best {
+				c.bad(fn, "index", "%s = %d (magnitude %v), the largest magnitude in range is %v", what, got, p.mag, best)
+			}
+			return
+		}
+	}
+	c.bad(fn, "index", "%s = %d, not the index of a reachable segment (largest magnitude in range is %v)", what, got, best)
+}
+
+func checkShift(c *caseCtx, l *shadowList, d int64) {
+	const fn = "segmentpb.Shift"
+	var out []*seg
+	if !c.call(fn, func() { out = segmentpb.Shift(dur(d), l.list()...) }) {
+		return
+	}
+	c.unmutated(fn, l)
+	g, problem := readFn(out)
+	what := fmt.Sprintf("Shift(%d, %v)", d, l.spec)
+	if problem != "" {
+		c.bad(fn, "malformed-result", "%s = %v: %s", what, out, problem)
+		return
+	}
+	f := l.f
+	for _, t := range samplePoints(c.unit, f.breaks(0), f.breaks(d), g.breaks(0)) {
+		// a list has no time before its own start: a shift to the left drops what moves before 0
+		want := f.val(t - d)
+		if t < 0 {
+			want = 0
+		}
+		if got := g.val(t); got != want {
+			c.bad(fn, "translation", "%s = %v has value %v at t=%d, the argument has %v at t-d=%d", what, out, got, t, want, t-d)
+			break
+		}
+	}
+	switch {
+	case d > 0 && len(l.spec) > 0 && l.spec[0].Mag == 0:
+		c.r.Count("shift-right-extends-first", 1)
+	case d > 0:
+		c.r.Count("shift-right-prepends", 1)
+	case d < 0 && f.cover(-d) != nil && f.cover(-d).start != -d:
+		c.r.Count("shift-left-cuts-inside-segment", 1)
+	case d < 0 && f.cover(-d) != nil:
+		c.r.Count("shift-left-at-breakpoint", 1)
+	case d < 0:
+		c.r.Count("shift-left-beyond-end", 1)
+	}
+}
+
+func checkCut(c *caseCtx, l *shadowList, i int, sp segSpec, single stepFn, d int64) {
+	const fn = "segmentpb.Cut"
+	var before, after *seg
+	var outside bool
+	s := l.list()[i]
+	if !c.call(fn, func() { before, after, outside = segmentpb.Cut(dur(d), s) }) {
+		return
+	}
+	c.unmutated(fn, l)
+	what := fmt.Sprintf("Cut(%d, %v)", d, listSpec{sp})
+	var parts []*seg
+	if before != nil {
+		parts = append(parts, before)
+	}
+	if after != nil {
+		parts = append(parts, after)
+	}
+	bf, p1 := readFn([]*seg{before}[:b2i(before != nil)])
+	af, p2 := readFn([]*seg{after}[:b2i(after != nil)])
+	g, p3 := readFn(parts)
+	if p1+p2+p3 != "" {
+		c.bad(fn, "malformed-result", "%s = (%v, %v): %s%s%s", what, before, after, p1, p2, p3)
+		return
+	}
+	// (a) the two parts read one after the other are the same function as the segment
+	for _, t := range samplePoints(c.unit, single.breaks(0), g.breaks(0), []int64{d}) {
+		if got, want := g.val(t), single.val(t); got != want {
+			c.bad(fn, "function", "%s = (%v, %v): before followed by after has value %v at t=%d, the segment has %v", what, before, after, got, t, want)
+			break
+		}
+	}
+	// (b) no length is lost or invented
+	if !single.infinite && (g.infinite || g.total != single.total) {
+		c.bad(fn, "length", "%s = (%v, %v): the parts last (%d, infinite=%v), the segment lasts %d", what, before, after, g.total, g.infinite, single.total)
+	}
+	if single.infinite && !g.infinite {
+		c.bad(fn, "length", "%s = (%v, %v): an infinite segment was cut into finite parts", what, before, after)
+	}
+	// (c) the split is along d: before holds what lies before d, after what lies at or after d
+	wantBefore := min(max(d, 0), single.total)
+	if single.infinite {
+		wantBefore = max(d, 0)
+	}
+	if bf.infinite || bf.total != wantBefore {
+		c.bad(fn, "position", "%s = (%v, %v): the part before the cut lasts (%d, infinite=%v), expected %d", what, before, after, bf.total, bf.infinite, wantBefore)
+	}
+	if !single.infinite && !af.infinite && af.total != single.total-wantBefore {
+		c.bad(fn, "position", "%s = (%v, %v): the part after the cut lasts %d, expected %d", what, before, after, af.total, single.total-wantBefore)
+	}
+	switch {
+	case d < 0:
+		c.r.Count("cut-before-start", 1)
+	case d == 0:
+		c.r.Count("cut-at-start", 1)
+	case single.infinite:
+		c.r.Count("cut-infinite-segment", 1)
+	case d < single.total:
+		c.r.Count("cut-inside", 1)
+	case d == single.total:
+		c.r.Count("cut-at-end", 1)
+	default:
+		c.r.Count("cut-beyond-end", 1)
+	}
+	if outside {
+		c.r.Count("cut-outside-flag-true(observed, not judged)", 1)
+	}
+}
+
+func b2i(b bool) int {
+	if b {
+		return 1
+	}
+	return 0
+}
+
+// checkSum compares segmentpb.Sum of the given lists with pointwise addition.
+func checkSum(c *caseCtx, lists []*shadowList) {
+	const fn = "segmentpb.Sum"
+	args := make([][]*seg, len(lists), len(lists)+1)
+	var specs []listSpec
+	breaks := [][]int64{}
+	for i, l := range lists {
+		args[i] = l.list()
+		specs = append(specs, l.spec)
+		breaks = append(breaks, l.f.breaks(0))
+	}
+	argsCopy := append([][]*seg(nil), args...)
+	var out []*seg
+	if !c.call(fn, func() { out = segmentpb.Sum(args...) }) {
+		return
+	}
+	c.unmutated(fn, lists...)
+	for i := range args {
+		if len(args[i]) != len(argsCopy[i]) || (len(args[i]) > 0 && &args[i][0] != &argsCopy[i][0]) {
+			c.bad(fn, "mutates-input", "Sum replaced element %d of its variadic argument", i)
+		}
+	}
+	what := fmt.Sprintf("Sum(%v)", specs)
+	g, problem := readFn(out)
+	if problem != "" {
+		c.bad(fn, "malformed-result", "%s = %v: %s", what, out, problem)
+		return
+	}
+	breaks = append(breaks, g.breaks(0))
+	for _, t := range samplePoints(c.unit, breaks...) {
+		var want float32
+		for _, l := range lists {
+			want += l.f.val(t)
+		}
+		if got := g.val(t); got != want {
+			c.bad(fn, "pointwise", "%s = %v has value %v at t=%d, the arguments add up to %v there", what, out, got, t, want)
+			break
+		}
+	}
+	nInf, nZeroLen := 0, 0
+	for _, l := range lists {
+		if l.f.infinite {
+			nInf++
+		}
+		for _, s := range l.spec {
+			if !s.Inf && s.Len == 0 && s.Mag != 0 {
+				nZeroLen++
+			}
+		}
+	}
+	c.r.Count(fmt.Sprintf("sum-of-%d-lists", min(len(lists), 4)), 1)
+	if nInf > 0 {
+		c.r.Count("sum-with-infinite-segment", 1)
+	}
+	if nZeroLen > 0 {
+		c.r.Count("sum-with-zero-length-nonzero-magnitude-segment", 1)
+	}
+}
+
+// ---- workload -----------------------------------------------------------------------------------------------
+
+// enumLists returns every list of at most maxK segments with magnitudes 0..maxMag and lengths 0..maxLen units,
+// the final segment optionally infinite.
+func enumLists(maxK, maxMag int, maxLen int64, unit int64) []listSpec {
+	out := []listSpec{{}}
+	var rec func(prefix listSpec)
+	rec = func(prefix listSpec) {
+		for m := 0; m <= maxMag; m++ {
+			inf := append(append(listSpec{}, prefix...), segSpec{Mag: m, Inf: true})
+			out = append(out, inf)
+			for l := int64(0); l <= maxLen; l++ {
+				next := append(append(listSpec{}, prefix...), segSpec{Mag: m, Len: l * unit})
+				out = append(out, next)
+				if len(next) < maxK {
+					rec(next)
+				}
+			}
+		}
+	}
+	if maxK > 0 {
+		rec(nil)
+	}
+	return out
+}
+
+var units = []int64{1, 1, 2, 1_000_000_000, 1_500_000_000, 999_999_999, 3_600_000_000_000}
+
+func genList(rng *vk.Rand, unit int64) listSpec {
+	n := rng.Range(0, 6)
+	l := make(listSpec, 0, n)
+	for i := 0; i < n; i++ {
+		s := segSpec{Mag: rng.Range(0, 4), Len: int64(rng.Range(0, 4)) * unit, Fixed: rng.Chance(1, 6)}
+		if rng.Chance(1, 3) {
+			s.Mag = 0
+		}
+		if rng.Chance(1, 5) {
+			s.Len = 0
+		}
+		if i == n-1 && rng.Chance(1, 4) {
+			s.Inf = true
+		}
+		l = append(l, s)
+	}
+	return l
+}
+
+func segments(r *vk.Run) {
+	// 1. bounded-exhaustive: every list of <= K segments over magnitudes {0,1,2} and lengths {0,1,2} ns (final
+	// segment optionally infinite), every operation at every integer instant around it.
+	k := r.Pick(3, 4)
+	small := enumLists(k, 2, 2, 1)
+	for i, spec := range small {
+		if !r.Mine(i) {
+			continue
+		}
+		c := &caseCtx{r: r, unit: 1, desc: "exhaustive list " + spec.String(), replay: map[string]any{"stream": "exh-list", "list": spec}}
+		l := newShadowList(spec)
+		checkList(c, l)
+		checkSum(c, []*shadowList{l})
+		if why := l.changed(true); why != "" {
+			c.bad("segmentpb", "mutates-input", "after all operations: %s", why)
+		}
+		r.Distinct("exh-list:" + spec.String())
+		r.Count("exhaustive-lists", 1)
+	}
+	// 2. bounded-exhaustive Sum: every ordered pair (thorough: also triples of the <=1-segment lists) of lists
+	// with <= 2 segments.
+	pairs := enumLists(2, 2, 2, 1)
+	idx := 0
+	for _, a := range pairs {
+		for _, b := range pairs {
+			idx++
+			if !r.Mine(idx) {
+				continue
+			}
+			c := &caseCtx{r: r, unit: 1, desc: "exhaustive sum " + a.String() + "+" + b.String(), replay: map[string]any{"stream": "exh-sum", "lists": []listSpec{a, b}}}
+			checkSum(c, []*shadowList{newShadowList(a), newShadowList(b)})
+			r.Distinct("exh-sum:" + a.String() + b.String())
+			r.Count("exhaustive-sum-pairs", 1)
+		}
+	}
+	if !r.Quick() {
+		singles := enumLists(1, 2, 2, 1)
+		for _, a := range singles {
+			for _, b := range pairs {
+				for _, d := range singles {
+					idx++
+					if !r.Mine(idx) {
+						continue
+					}
+					c := &caseCtx{r: r, unit: 1, desc: "exhaustive sum " + a.String() + "+" + b.String() + "+" + d.String(), replay: map[string]any{"stream": "exh-sum", "lists": []listSpec{a, b, d}}}
+					checkSum(c, []*shadowList{newShadowList(a), newShadowList(b), newShadowList(d)})
+					r.Distinct("exh-sum:" + a.String() + b.String() + d.String())
+					r.Count("exhaustive-sum-triples", 1)
+				}
+			}
+		}
+	}
+	// 3. mode level, bounded-exhaustive and random (modes.go)
+	modesExhaustive(r)
+
+	// 4. random: 1-4 lists of 0-6 segments in a random time unit; every operation on every list, Sum of every
+	// prefix of the lists, and the same lists as modes with and without start times.
+	n := r.Pick(20000, 1000000)
+	for i := 0; i < n; i++ {
+		if !r.Mine(i) {
+			continue
+		}
+		rng := r.CaseRand("segments", i)
+		unit := units[rng.Intn(len(units))]
+		nl := rng.Range(1, 4)
+		specs := make([]listSpec, nl)
+		desc := fmt.Sprintf("u=%d", unit)
+		for j := range specs {
+			specs[j] = genList(rng, unit)
+			desc += " " + specs[j].String()
+		}
+		c := &caseCtx{r: r, unit: unit, desc: fmt.Sprintf("random case %d (seed %d): %s", i, r.Seed, desc),
+			replay: map[string]any{"stream": "segments", "case": i, "seed": r.Seed, "unit_ns": unit, "lists": specs}}
+		lists := make([]*shadowList, nl)
+		nonTrivial := false
+		for j, sp := range specs {
+			lists[j] = newShadowList(sp)
+			if len(sp) > 0 {
+				nonTrivial = true
+			}
+		}
+		// single-list operations on one of the lists (all of them would only repeat the same code paths)
+		checkList(c, lists[rng.Intn(nl)])
+		for j := 1; j <= nl; j++ {
+			checkSum(c, lists[:j])
+		}
+		for j, l := range lists {
+			if why := l.changed(true); why != "" {
+				c.bad("segmentpb", "mutates-input", "list %d after all operations: %s", j, why)
+			}
+		}
+		modesRandom(c, rng, specs)
+		if nonTrivial {
+			r.Distinct("rnd:" + desc)
+			r.Count("random-cases-nontrivial", 1)
+		}
+		if r.WantSample("segment-case") {
+			var out []*seg
+			args := make([][]*seg, nl)
+			for j, sp := range specs {
+				args[j] = newShadowList(sp).list()
+			}
+			out = segmentpb.Sum(args...)
+			g, _ := readFn(out)
+			r.Sample("segment-case", map[string]any{"unit_ns": unit, "lists": fmt.Sprint(specs), "sum_result_pieces": fmt.Sprint(g.pieces)})
+		}
+	}
+
+	r.Require("exhaustive-lists", len(small))
+	r.Require("exhaustive-sum-pairs", len(pairs)*len(pairs))
+	r.Require("random-cases-nontrivial", n*9/10)
+	for _, k := range []string{
+		"query-at-breakpoint", "query-inside-segment", "query-beyond-end", "query-negative",
+		"shift-right-extends-first", "shift-right-prepends", "shift-left-cuts-inside-segment", "shift-left-at-breakpoint", "shift-left-beyond-end",
+		"cut-before-start", "cut-at-start", "cut-infinite-segment", "cut-inside", "cut-at-end", "cut-beyond-end",
+		"sum-of-1-lists", "sum-of-2-lists", "sum-of-3-lists", "sum-of-4-lists", "sum-with-infinite-segment", "sum-with-zero-length-nonzero-magnitude-segment",
+	} {
+		r.Require(k, 1000)
+	}
+	for _, fn := range []string{"segmentpb.ActiveAt", "segmentpb.MagnitudeAt", "segmentpb.Duration", "segmentpb.MaxMagnitude", "segmentpb.Max",
+		"segmentpb.MaxAfter", "segmentpb.Cut", "segmentpb.Shift", "segmentpb.Sum"} {
+		r.Require("calls:"+fn, 10000)
+	}
+}
